@@ -150,4 +150,64 @@ theorem bucket_group_eq_pooled (st : Store) (members : List Nat) (hnd : members.
       simp only [Bool.and_eq_true, List.contains_iff_mem, List.mem_singleton, decide_eq_true_eq] at h1 h2
       exact hm (h1.1.1 ▸ h2.1.1)
 
+/-! ### partition of a bucket by seconds (for the two-grid argument of the over-time push-down) -/
+
+theorem foldr_om_append (l : List (Option Row)) (x : Option Row) :
+    (l ++ [x]).foldr om none = om (l.foldr om none) x := by
+  induction l with
+  | nil => simp [om_none_left, om_none_right]
+  | cons a as ih => simp only [List.cons_append, List.foldr_cons, ih, om_assoc]
+
+theorem bucketRows_eq_rowsOf (st : Store) (members : List Nat) (lo hi : Int) :
+    bucketRows st members lo hi =
+      rowsOf st.events (fun e => members.contains e.series && decide (lo ≤ e.sec) && decide (e.sec < hi)) := rfl
+
+/-- **the rows of the bucket [T, T+r) are the rows of its r one-second buckets**: merging them all at once (what the
+    storage does for the pushed-down query, in whatever order the events are stored) equals merging second by second -/
+theorem bucket_by_seconds (st : Store) (members : List Nat) (T : Int) (r : Nat) :
+    mergeRows (bucketRows st members T (T + (r : Int))) =
+      ((List.range r).map (fun (d : Nat) => mergeRows (bucketRows st members (T + (d : Int)) (T + (d : Int) + 1)))).foldr om none := by
+  induction r with
+  | zero =>
+    have hf : st.events.filter (fun e => members.contains e.series && decide (T ≤ e.sec) && decide (e.sec < T + ((0 : Nat) : Int))) = [] := by
+      apply List.filter_eq_nil_iff.mpr
+      intro e _
+      simp only [Nat.cast_zero, add_zero, Bool.and_eq_true, decide_eq_true_eq, not_and, not_lt]
+      intro h; exact h.2
+    unfold bucketRows
+    rw [hf]
+    rfl
+  | succ r ih =>
+    rw [List.range_succ, List.map_append, List.map_singleton, foldr_om_append, ← ih]
+    rw [mergeRows_eq_mergeAll, mergeRows_eq_mergeAll, mergeRows_eq_mergeAll]
+    have e1 : bucketRows st members T (T + ((r + 1 : Nat) : Int)) =
+        rowsOf st.events (fun e => (members.contains e.series && decide (T ≤ e.sec) && decide (e.sec < T + (r : Int))) ||
+                                   (members.contains e.series && decide (T + (r : Int) ≤ e.sec) && decide (e.sec < T + (r : Int) + 1))) := by
+      unfold bucketRows rowsOf
+      congr 1
+      apply List.filter_congr
+      intro e _
+      by_cases hm : members.contains e.series = true
+      · simp only [hm, Bool.true_and]
+        rw [Bool.eq_iff_iff]
+        simp only [Bool.and_eq_true, Bool.or_eq_true, decide_eq_true_eq]
+        push_cast
+        constructor
+        · intro ⟨h1, h2⟩
+          by_cases h3 : e.sec < T + (r : Int)
+          · exact Or.inl ⟨h1, h3⟩
+          · exact Or.inr ⟨by omega, by omega⟩
+        · intro h
+          rcases h with ⟨h1, h2⟩ | ⟨h1, h2⟩
+          · exact ⟨h1, by omega⟩
+          · exact ⟨by omega, by omega⟩
+      · have hnm : e.series ∉ members := by
+          intro h; exact hm (List.contains_iff_mem.mpr h)
+        simp [hnm]
+    rw [e1, mergeAll_rowsOf_or]
+    · rfl
+    · intro e ⟨h1, h2⟩
+      simp only [Bool.and_eq_true, decide_eq_true_eq] at h1 h2
+      omega
+
 end SH.PromReduce
